@@ -539,6 +539,95 @@ var depthFacet = harness.Register(&harness.Facet[depthCase]{
 
 func TestStackDepthLimit(t *testing.T) { depthFacet.Run(t) }
 
+// ---- facet: depth sweep through call forms whose frame count is the implementation's business -------------
+
+type sweepCase struct {
+	Limit int    `json:"limit"`
+	Form  string `json:"form"`
+}
+
+// d(n) recurses n levels through the form; how many engine frames a level costs is not asserted
+var sweepForms = map[string]string{
+	"indirect-eval": `var ge = eval; function d(n){ return n<=1 ? 1 : 1+ge("d("+(n-1)+")") }`,
+	"direct-eval":   `function d(n){ return n<=1 ? 1 : 1+eval("d("+(n-1)+")") }`,
+	"call":          `function d(n){ return n<=1 ? 1 : 1+d.call(null, n-1) }`,
+	"apply":         `function d(n){ return n<=1 ? 1 : 1+d.apply(null, [n-1]) }`,
+	"bound":         `function d(n){ return n<=1 ? 1 : 1+d.bind(null, n-1)() }`,
+	"foreach":       `function d(n){ var r=1; if(n>1) [0].forEach(function(){ r=1+d(n-1) }); return r }`,
+	"sort":          `function d(n){ var r=1; if(n>1) [2,1].sort(function(a,b){ r=1+d(n-1); return a-b }); return r }`,
+	"replace":       `function d(n){ var r=1; if(n>1) "x".replace(/x/, function(){ r=1+d(n-1); return "" }); return r }`,
+	"valueof":       `function d(n){ return n<=1 ? 1 : 1+({valueOf:function(){ return d(n-1) }}) }`,
+	"tojson":        `function d(n){ return n<=1 ? 1 : 1+JSON.parse(JSON.stringify({toJSON:function(){ return d(n-1) }})) }`,
+	"new-function":  `var d = new Function("n", "return n<=1 ? 1 : 1+d(n-1)")`,
+	"getter-proto":  `function P(){} Object.defineProperty(P.prototype, "v", {get:function(){ var k=this.n; if(k<=1) return 1; var q=new P(); q.n=k-1; return 1+q.v }}); function d(n){ var p=new P(); p.n=n; return p.v }`,
+}
+
+var sweepFacet = harness.Register(&harness.Facet[sweepCase]{
+	Name:     "stack-depth-sweep",
+	Rule:     "rapid: a stack depth limit L in 2..40 and a recursion form whose engine-frame cost per level is implementation business (indirect and direct eval, call, apply, bind, forEach/sort/replace callbacks, valueOf coercion, toJSON, new Function, prototype getter); ALL depths 1..L+4 are run on one runtime. Oracle: every run either completes with the right count or ends in a RangeError the script catches (never a Go panic, never another error); the outcome is monotone in the depth (once refused, always refused) and a chain of more than L levels is always refused; after every run the runtime is at rest (scope depth 0, no pending labels) and a battery run under a generous limit behaves normally. Non-trivial = every case; distinct by (form, L)",
+	Quick:    250,
+	Thorough: 2500,
+	Gen: func(t *rapid.T) sweepCase {
+		var forms []string
+		for f := range sweepForms {
+			forms = append(forms, f)
+		}
+		sortStrings(forms)
+		return sweepCase{Limit: rapid.IntRange(2, 40).Draw(t, "limit"), Form: rapid.SampledFrom(forms).Draw(t, "form")}
+	},
+	Check: func(c sweepCase) harness.Outcome {
+		out := harness.Outcome{Nontrivial: true, Classes: []string{"form:" + c.Form}}
+		vm := otto.New()
+		vm.SetStackDepthLimit(300)
+		if r := harness.Run(vm, sweepForms[c.Form]+"; function __battery() { return "+battery+" }"); r.Panicked || r.Err != nil {
+			out.Fail = "definition failed: " + r.Describe()
+			return out
+		}
+		refused := false
+		for n := 1; n <= c.Limit+4; n++ {
+			vm.SetStackDepthLimit(c.Limit)
+			res := harness.Run(vm, fmt.Sprintf(`var __r; try { __r = "ok:" + d(%d) } catch (e) { __r = "caught:" + e.name + ":" + (e instanceof RangeError) } __r`, n))
+			got := res.Describe()
+			switch {
+			case res.Panicked:
+				out.Fail = fmt.Sprintf("limit %d, form %s, depth %d: a Go panic crossed Run: %v", c.Limit, c.Form, n, res.Panic)
+			case res.Err != nil && harness.ErrName(res.Err) != "RangeError":
+				out.Fail = fmt.Sprintf("limit %d, form %s, depth %d: Run returned %s (want a result or a RangeError)", c.Limit, c.Form, n, got)
+			case res.Err == nil && got == fmt.Sprintf("ok:%d", n):
+				if refused {
+					out.Fail = fmt.Sprintf("limit %d, form %s: depth %d runs although a shallower chain was refused (the limit leaks or shifts)", c.Limit, c.Form, n)
+				}
+				if n > c.Limit {
+					out.Fail = fmt.Sprintf("limit %d, form %s: a chain of %d script levels ran although the limit is %d", c.Limit, c.Form, n, c.Limit)
+				}
+			case res.Err != nil || got == "caught:RangeError:true":
+				refused = true
+			default:
+				out.Fail = fmt.Sprintf("limit %d, form %s, depth %d: unexpected outcome %s", c.Limit, c.Form, n, got)
+			}
+			if out.Fail != "" {
+				return out
+			}
+			if d := otto.VerifScopeDepth(vm); d != 0 {
+				out.Fail = fmt.Sprintf("limit %d, form %s, depth %d (%s): scope depth at rest is %d, want 0", c.Limit, c.Form, n, got, d)
+				return out
+			}
+			if l := otto.VerifLabelCount(vm); l != 0 {
+				out.Fail = fmt.Sprintf("limit %d, form %s, depth %d: %d pending labels at rest", c.Limit, c.Form, n, l)
+				return out
+			}
+			vm.SetStackDepthLimit(300)
+			if b := harness.Guard(func() (otto.Value, error) { return vm.Call("__battery", nil) }); b.Panicked || b.Err != nil || b.Value.String() != batteryWant {
+				out.Fail = fmt.Sprintf("limit %d, form %s: battery after depth %d (%s) gave %s", c.Limit, c.Form, n, got, b.Describe())
+				return out
+			}
+		}
+		return out
+	},
+})
+
+func TestStackDepthSweep(t *testing.T) { sweepFacet.Run(t) }
+
 // ---- facet: every loop iteration polls; asynchronous delivery ends a non-terminating run ----------------
 
 type asyncCase struct {
